@@ -3,36 +3,63 @@ sys.path.insert(0, os.path.dirname(__file__))
 from _common import *
 DUR = 'acmed/src/duration.rs'
 FOLD = r'nom::multi::fold_many1'
+
+def gen_duration(d, cache, cut):
+    """Source slice: paste the init and fold closures of get_duration into the harness."""
+    import os
+    p = os.path.join(d, DUR)
+    src = cache[p]
+    real = src.split('#[cfg(kani)]')[0]
+    args = cut.call_args(real, 'fold_many1')
+    if len(args) != 3:
+        raise cut.EncodeError('slice: fold_many1 does not have 3 arguments')
+    cache[p] = src.replace('VERIF_SLICE_FOLD_INIT', args[1]).replace('VERIF_SLICE_FOLD_STEP', args[2])
+
+
 SPEC = {
     'id': 'C19',
-    'outside': 'TOML syntax / serde type errors (toml+serde are beyond a symbolic string), include cycles (file I/O), periods longer than 20 digits per part or more than 2 parts, alphabets other than stated.',
+    'outside': 'TOML syntax / serde type errors (toml+serde are beyond a symbolic string), include cycles (file I/O), more than 2 parts per period, symbolic digits in two-part periods beyond 2 digits per part (long two-part periods: concrete digits + source slice of the fold), alphabets other than stated.',
     'assumptions': ['alloc::fmt::format stubbed to return an empty string (error message text is not the subject)',
-                    'CBMC raw-pointer checks off (safe Rust; Rust panics stay on as assertions)'],
+                    'CBMC raw-pointer checks off (safe Rust; Rust panics stay on as assertions)',
+                    'source slice: the initialiser and folding closure of duration::get_duration are pasted verbatim from /repo into c19_dur_fold_slice'],
     'units': [
         {
             'name': 'duration',
             'pkg': 'acmed',
             'harness_files': {DUR: 'harness/duration.rs'},
+            'gen': gen_duration,
             'harnesses': [
-                {'name': 'c19_dur_witness', 'file': DUR, 'kind': 'witness', 'timeout': 900, 'unwindset': {FOLD: 3},
+                {'name': 'c19_dur_witness', 'file': DUR, 'kind': 'witness', 'timeout': 1500, 'unwindset': {FOLD: 3},
                  'bounds': '2 digits + unit or x', 'asserts': 'parser accepts and rejects (reachability)'},
-                {'name': 'c19_dur_part', 'file': DUR, 'timeout': 1800,
+                {'name': 'c19_dur_fold_slice', 'file': DUR, 'timeout': 900,
+                 'bounds': 'any two parts of whole seconds (u64 each)', 'asserts': 'fold of get_duration: no panic; Some(exact sum) iff it fits u64 seconds'},
+                {'name': 'c19_dur_part_lead3_s', 'file': DUR, 'timeout': 2400,
+                 'bounds': '1..20 digits: 3 leading digits free, the rest 0; unit s; unwind 23', 'asserts': 'get_duration_part: no panic; Ok(d) iff nb*mult fits u64 and d == nb*mult'},
+                {'name': 'c19_dur_part_lead3_m', 'file': DUR, 'timeout': 2400,
+                 'bounds': '1..20 digits: 3 leading digits free, the rest 0; unit m; unwind 23', 'asserts': 'get_duration_part: no panic; Ok(d) iff nb*mult fits u64 and d == nb*mult'},
+                {'name': 'c19_dur_part_lead3_h', 'file': DUR, 'timeout': 2400,
+                 'bounds': '1..20 digits: 3 leading digits free, the rest 0; unit h; unwind 23', 'asserts': 'get_duration_part: no panic; Ok(d) iff nb*mult fits u64 and d == nb*mult'},
+                {'name': 'c19_dur_part_lead3_d', 'file': DUR, 'timeout': 2400,
+                 'bounds': '1..20 digits: 3 leading digits free, the rest 0; unit d; unwind 23', 'asserts': 'get_duration_part: no panic; Ok(d) iff nb*mult fits u64 and d == nb*mult'},
+                {'name': 'c19_dur_part_lead3_w', 'file': DUR, 'timeout': 2400,
+                 'bounds': '1..20 digits: 3 leading digits free, the rest 0; unit w; unwind 23', 'asserts': 'get_duration_part: no panic; Ok(d) iff nb*mult fits u64 and d == nb*mult'},
+                {'name': 'c19_dur_part', 'file': DUR, 'tiers': ['thorough'], 'timeout': 7200, 'mem_gb': 30,
                  'bounds': '1..20 free digits + any unit; unwind 23', 'asserts': 'get_duration_part: no panic; Ok(d) iff nb*mult fits u64 and d == nb*mult'},
-                {'name': 'c19_dur_grammar4', 'file': DUR, 'timeout': 1500, 'unwindset': {FOLD: 4},
+                {'name': 'c19_dur_sum_overflow_concrete', 'file': DUR, 'tiers': ['thorough'], 'timeout': 7200, 'unwindset': {FOLD: 4}, 'violation_without_playback': True,
+                 'bounds': '"18446744073709551615s1<u>", u any unit', 'asserts': 'parse_duration: Err, no panic'},
+                {'name': 'c19_dur_sum_max_concrete', 'file': DUR, 'tiers': ['thorough'], 'timeout': 3600, 'unwindset': {FOLD: 4}, 'violation_without_playback': True,
+                 'bounds': '"18446744073709551614s1s"', 'asserts': 'parse_duration: Ok(u64::MAX s)'},
+                {'name': 'c19_dur_grammar3', 'file': DUR, 'timeout': 2400, 'unwindset': {FOLD: 3},
+                 'bounds': 'every string of 0..3 bytes over [0 1 9 s m h w x space]; unwind 6',
+                 'asserts': 'accepted iff ([0-9]+[smhdw])+ ; value == independent reference parser'},
+                {'name': 'c19_dur_grammar4', 'file': DUR, 'tiers': ['thorough'], 'timeout': 3600, 'unwindset': {FOLD: 4},
                  'bounds': 'every string of 0..4 bytes over [0 1 9 s m h w x space]; unwind 7',
                  'asserts': 'accepted iff ([0-9]+[smhdw])+ ; value == independent reference parser'},
-                {'name': 'c19_dur_two_parts_small', 'file': DUR, 'timeout': 1800, 'unwindset': {FOLD: 4},
+                {'name': 'c19_dur_two_parts_small', 'file': DUR, 'tiers': ['thorough'], 'timeout': 5400, 'unwindset': {FOLD: 4},
                  'bounds': 'two parts of 1..2 digits + unit each; unwind 9',
                  'asserts': 'no panic; d == sum of the parts'},
-                {'name': 'c19_dur_one_part', 'file': DUR, 'tiers': ['thorough'], 'timeout': 3600, 'unwindset': {FOLD: 3},
-                 'bounds': '1..20 free digits + any unit; unwind 23', 'asserts': 'parse_duration: no panic; Ok(d) iff nb*mult fits u64 and d == nb*mult'},
-                {'name': 'c19_dur_one_part_boundary', 'file': DUR, 'tiers': ['thorough'], 'timeout': 1800, 'unwindset': {FOLD: 3},
-                 'bounds': '1..20 digits (4 leading digits free, others in {0,9}) + any unit; unwind 23',
-                 'asserts': 'no panic; Ok(d) iff nb*mult fits u64 and d == nb*mult'},
-                {'name': 'c19_dur_grammar6', 'file': DUR, 'tiers': ['thorough'], 'timeout': 3600, 'unwindset': {FOLD: 5},
+                {'name': 'c19_dur_grammar6', 'file': DUR, 'tiers': ['thorough'], 'timeout': 7200, 'unwindset': {FOLD: 5},
                  'bounds': 'every string of 0..6 bytes over [0 1 9 s m h w x space]; unwind 9', 'asserts': 'accepted iff grammar; value == reference'},
-                {'name': 'c19_dur_two_parts_wide', 'file': DUR, 'tiers': ['thorough'], 'timeout': 7200, 'unwindset': {FOLD: 4},
-                 'bounds': 'two parts of 1..20 digits + unit each; unwind 44', 'asserts': 'no panic (sum overflow); d == exact sum'},
             ],
         },
         {
@@ -51,8 +78,12 @@ SPEC = {
             'assumptions': ENDPOINT_ASSUMPTIONS + ['duration::parse_duration cut: returns Err or any Duration of whole seconds (verified separately above)'],
             'harness_files': {EP: 'harness/endpoint.rs'},
             'harnesses': [
-                {'name': 'c19_rl_first_request', 'file': EP, 'timeout': 1500, 'bounds': 'number 0..3, period any u64 seconds, empty log',
-                 'asserts': 'RateLimit::new rejects or the first request is admitted after one sleep: no division by zero, no permanent refusal'},
+                {'name': 'c19_rl_first_request_n0', 'file': EP, 'timeout': 1500, 'bounds': 'number=0, period any u64 seconds (or rejected by the cut parser), empty log',
+                 'asserts': 'RateLimit::new rejects, or the first request is admitted after one sleep: no division by zero, no overflow, no permanent refusal'},
+                {'name': 'c19_rl_first_request_n1', 'file': EP, 'timeout': 1500, 'bounds': 'number=1, period any u64 seconds (or rejected by the cut parser), empty log',
+                 'asserts': 'RateLimit::new rejects, or the first request is admitted after one sleep: no division by zero, no overflow, no permanent refusal'},
+                {'name': 'c19_rl_first_request_n3', 'file': EP, 'timeout': 1500, 'bounds': 'number=3, period any u64 seconds (or rejected by the cut parser), empty log',
+                 'asserts': 'RateLimit::new rejects, or the first request is admitted after one sleep: no division by zero, no overflow, no permanent refusal'},
             ],
         },
     ],
